@@ -479,6 +479,21 @@ where
             }
             Err(err) => {
                 self.metrics.send_packets_dropped.inc();
+                // The sink refuses to encode empty and oversized packets before touching
+                // the connection. Such a packet was sent by another client, whose frame the
+                // decoder accepted: drop it instead of ending this (the receiving)
+                // client's connection.
+                if matches!(
+                    err,
+                    WriteFrameError::Stream {
+                        source: RelaySendError::EmptyPacket { .. }
+                            | RelaySendError::ExceedsMaxPacketSize { .. },
+                        ..
+                    }
+                ) {
+                    debug!("dropping unforwardable packet: {err:#}");
+                    return Ok(());
+                }
                 Err(err)
             }
         }
